@@ -10,7 +10,7 @@ GridQ == Half(0, 2) \cup {<<1, 4>>, <<3, 4>>, <<5, 4>>} \cup Far(0, 2)
 SizesT1 == {<<4, 2>>, <<3, 3>>}
 GridT1 == Half(0, 3) \cup Far(0, 3)
 SizesT2 == {<<2, 2, 2>>, <<2, 3, 2>>}
-GridT2 == Half(0, 2) \cup {<<-3, 2>>, <<-1, 1>>, <<7, 2>>}
+GridT2 == Half(0, 2) \cup {<<-3, 2>>}
 CaseFile(sz, kd, xg) == [sizes |-> SetToSeq(sz), kvals |-> SetToSeq(kd), xgrid |-> SetToSeq(xg)]
 Tier == IOEnv.VERIF_TIER
 =============================================================================
